@@ -96,3 +96,41 @@ impl std::fmt::Display for RecorderError {
 }
 
 impl std::error::Error for RecorderError {}
+
+// ---------------------------------------------------------------------------------------------
+// Contract monitor for the shared match search (window-edge harnesses of C08/C09/C10)
+// ---------------------------------------------------------------------------------------------
+
+/// Look-ahead the caller under test must offer (0x12 for LZ10, 0x1000 for LZ13); set by the harness.
+pub static mut SEARCH_LOOKAHEAD: usize = 0;
+pub static mut SEARCH_CALLS: usize = 0;
+pub static mut SEARCH_MAX_WINDOW: usize = 0;
+
+/// Stands in for `mila::lz13::get_occurrence_length`: checks the call-site contract of the two
+/// compressors (window = the last min(position, 4096) bytes ending at the cursor, look-ahead = the
+/// format's maximum match length capped by the remaining input) and reports "no match".
+pub fn occurrence_contract_monitor(
+    bytes: &[u8],
+    new_ptr: usize,
+    new_length: usize,
+    old_ptr: usize,
+    old_length: usize,
+) -> (i32, usize) {
+    unsafe {
+        SEARCH_CALLS += 1;
+        if old_length > SEARCH_MAX_WINDOW {
+            SEARCH_MAX_WINDOW = old_length;
+        }
+        assert!(old_length <= 0x1000, "C08/C09: look-back window larger than 4096 bytes: a displacement would not fit the 12-bit field");
+        assert!(old_length == core::cmp::min(new_ptr, 0x1000), "C10: the whole window (the last min(position, 4096) bytes) must be offered to the match search");
+        assert!(old_ptr + old_length == new_ptr, "C08/C09: the window must end at the cursor");
+        assert!(new_length == core::cmp::min(bytes.len() - new_ptr, SEARCH_LOOKAHEAD), "C10: the look-ahead must be the format's full match length capped by the remaining input");
+    }
+    (0, 0)
+}
+
+/// Stands in for `mila::lz13::calculate_lz13_header` in the window-edge harness (its value only
+/// fills bytes 1..3 of the wrapper, which the property leaves unspecified).
+pub fn lz13_header_stub(_bytes: &[u8]) -> Result<usize, mila::CompressionError> {
+    Ok(0)
+}
